@@ -259,8 +259,12 @@ class sequence_variables:
                 else:
                     half = count // 2
                     try:
-                        data['median-%s' %
-                             name] = (values[half] + values[half - 1]) // 2
+                        two = values[half] + values[half - 1]
+                        if isinstance(two, int):
+                            data['median-%s' % name] = two // 2
+                        else:
+                            # floor division is only right for integers
+                            data['median-%s' % name] = two / 2
                     except Exception:
                         try:
                             data['median-%s' %
